@@ -533,7 +533,7 @@ def splice(gnode, call, target_kind, target, caller_locals, is_method=False, all
         if isinstance(arg, ast.Name) and p not in stored:
             if arg.id != p:
                 rename[p] = arg.id
-        elif isinstance(arg, ast.Constant) and p not in stored and isinstance(arg.value, (bool, type(None))):
+        elif isinstance(arg, ast.Constant) and p not in stored and isinstance(arg.value, (bool, type(None), int, str)):
             consts[p] = arg          # a flag: written into the body, and the branches it decides are folded
         else:
             pre.append(ast.Assign(targets=[ast.Name(id=p, ctx=ast.Store())], value=copy.deepcopy(arg), lineno=call.lineno, col_offset=0))
@@ -576,6 +576,7 @@ def splice(gnode, call, target_kind, target, caller_locals, is_method=False, all
                     if outs:
                         outs[-1]._result = True
                         return outs
+                    return []          # every component already carries the target's name: nothing to bind
             st = ast.Assign(targets=[copy.deepcopy(target)], value=v, lineno=getattr(v, 'lineno', call.lineno), col_offset=0)
             st._result = True
             return [st]
@@ -1041,6 +1042,40 @@ def unroll_constant_loops(tree):
                 do_block(st.body, dict(consts, **local_consts(st)))
                 i += 1
                 continue
+            if isinstance(st, ast.For) and isinstance(st.target, (ast.Tuple, ast.List)) and not st.orelse \
+                    and all(isinstance(t_, ast.Name) for t_ in st.target.elts):
+                # `for field, period, carry in TABLE:` over a small table of rows of literals: the body once per row
+                it = st.iter
+                if isinstance(it, ast.Name) and it.id in consts:
+                    it = consts[it.id]
+
+                def simple_(e):
+                    if _is_literal(e) or (isinstance(e, (ast.Name, ast.Attribute)) and _is_global_ref(e)):
+                        return True
+                    if isinstance(e, (ast.Tuple, ast.List, ast.Set)):
+                        return all(simple_(x) for x in e.elts)
+                    if isinstance(e, ast.Dict):
+                        return all(k is not None and simple_(k) for k in e.keys) and all(simple_(v) for v in e.values)
+                    return False
+                names = [t_.id for t_ in st.target.elts]
+                if isinstance(it, (ast.Tuple, ast.List)) and 1 <= len(it.elts) <= 8 and all(
+                        isinstance(r, (ast.Tuple, ast.List)) and len(r.elts) == len(names) and all(simple_(x) for x in r.elts) for r in it.elts) \
+                        and not any(isinstance(x, (ast.Break, ast.Continue)) for b in st.body for x in _walk_scope_stmt(b)) \
+                        and not (set(names) & _stored_names(st.body)):
+                    rep = []
+                    for r in it.elts:
+                        m_ = dict(zip(names, r.elts))
+
+                        class R2(ast.NodeTransformer):
+                            def visit_Name(self, n):
+                                if n.id in m_ and isinstance(n.ctx, ast.Load):
+                                    return ast.copy_location(copy.deepcopy(m_[n.id]), n)
+                                return n
+                        for b in st.body:
+                            rep.append(R2().visit(copy.deepcopy(b)))
+                    blk[i:i + 1] = rep
+                    n_done[0] += 1
+                    continue
             if isinstance(st, ast.For) and isinstance(st.target, ast.Name) and not st.orelse:
                 seq = _const_sequence(st.iter, consts)
                 v = st.target.id
@@ -1360,10 +1395,88 @@ def property_assignments(tree):
     return count
 
 
+def fold_local_tables(tree):
+    """a local bound once to a dict display with literal keys and used only through `K in d` and `d[K]` with literal K (an
+    overrides table consulted per key) is folded away: the membership tests are decided, the subscripts replaced by the entry, the
+    conditional expressions that depended on them resolved."""
+    count = 0
+    for fnode in [n for n in ast.walk(tree) if isinstance(n, (ast.FunctionDef, ast.AsyncFunctionDef))]:
+        par = {}
+        for n in _walk_scope(fnode):
+            for c in ast.iter_child_nodes(n):
+                par[c] = n
+        stores = {}
+        for n in _walk_scope(fnode):
+            if isinstance(n, ast.Name) and isinstance(n.ctx, (ast.Store, ast.Del)):
+                stores[n.id] = stores.get(n.id, 0) + 1
+        for st in list(_walk_scope(fnode)):
+            if not (isinstance(st, ast.Assign) and len(st.targets) == 1 and isinstance(st.targets[0], ast.Name) and isinstance(st.value, ast.Dict)
+                    and st.value.keys and all(k is not None and isinstance(k, ast.Constant) for k in st.value.keys)):
+                continue
+            d = st.targets[0].id
+            if stores.get(d) != 1:
+                continue
+            uses = [n for n in _walk_scope(fnode) if isinstance(n, ast.Name) and n.id == d and isinstance(n.ctx, ast.Load)]
+            if not uses:
+                continue
+            ok = True
+            for un in uses:
+                p_ = par.get(un)
+                if isinstance(p_, ast.Subscript) and p_.value is un and isinstance(p_.ctx, ast.Load) and isinstance(p_.slice, ast.Constant):
+                    continue
+                if isinstance(p_, ast.Compare) and len(p_.ops) == 1 and isinstance(p_.ops[0], (ast.In, ast.NotIn)) and p_.comparators[0] is un \
+                        and isinstance(p_.left, ast.Constant):
+                    continue
+                ok = False
+            if not ok:
+                continue
+            # only the overrides idiom (`d[K] if K in d else default`): a table that is merely looked up keeps its keys - the names in it
+            # say which column is which
+            if not any(isinstance(par.get(un), ast.Compare) for un in uses):
+                continue
+            table = {k.value: v for k, v in zip(st.value.keys, st.value.values)}
+
+            class F(ast.NodeTransformer):
+                def visit_Compare(self, n):
+                    self.generic_visit(n)
+                    if len(n.ops) == 1 and isinstance(n.ops[0], (ast.In, ast.NotIn)) and isinstance(n.comparators[0], ast.Name) and n.comparators[0].id == d \
+                            and isinstance(n.left, ast.Constant):
+                        r = n.left.value in table
+                        return ast.copy_location(ast.Constant(value=r if isinstance(n.ops[0], ast.In) else not r), n)
+                    return n
+
+                def visit_Subscript(self, n):
+                    self.generic_visit(n)
+                    if isinstance(n.value, ast.Name) and n.value.id == d and isinstance(n.slice, ast.Constant) and n.slice.value in table:
+                        return ast.copy_location(copy.deepcopy(table[n.slice.value]), n)
+                    return n
+
+                def visit_IfExp(self, n):
+                    t = self.visit(n.test)
+                    if isinstance(t, ast.Constant) and isinstance(t.value, bool):
+                        return self.visit(n.body if t.value else n.orelse)
+                    n.test, n.body, n.orelse = t, self.visit(n.body), self.visit(n.orelse)
+                    return n
+            # a subscript with a key the table lacks, outside a decided conditional, would raise: leave such functions alone
+            fnode.body = [F().visit(b) for b in fnode.body]
+            left = [n for n in _walk_scope(fnode) if isinstance(n, ast.Name) and n.id == d and isinstance(n.ctx, ast.Load)]
+            if not left:
+                for blk_owner in ast.walk(fnode):
+                    for fld in ('body', 'orelse', 'finalbody'):
+                        b = getattr(blk_owner, fld, None)
+                        if isinstance(b, list) and st in b and len(b) > 1:
+                            b.remove(st)
+            count += 1
+    if count:
+        ast.fix_missing_locations(tree)
+    return count
+
+
 def canonical_local(tree):
     """function-local canonical forms that do not need the reference: comprehensions and loops over small constant sequences are
     written out.  Applied to the reference tree before it is fingerprinted and to the analysed tree before it is compared."""
     n = property_assignments(tree) + dict_displays(tree) + unroll_constant_comprehensions(tree) + unroll_constant_loops(tree)
+    n += fold_local_tables(tree)
     return n + dict_displays(tree)          # a display written out of a comprehension may be completed by the item stores after it
 
 
